@@ -152,7 +152,19 @@ def axi_check(kind, case, rec):
         mesh = mesh.triangulate()
     if cell in ("quad8", "triangle6"):
         mesh = mesh.add_midpoints_edges()
-    region = {"quad": fem.RegionQuad, "quad8": fem.RegionQuadraticQuad, "triangle": fem.RegionTriangle, "triangle6": fem.RegionQuadraticTriangle}[cell](mesh)
+    Rcls = {"quad": fem.RegionQuad, "quad8": fem.RegionQuadraticQuad, "triangle": fem.RegionTriangle, "triangle6": fem.RegionQuadraticTriangle}[cell]
+    if case["seed"] % 2 == 0:
+        # the region (and an axisymmetric field on it) existed before the mesh got its final radial position: the mesh is moved
+        # and the region re-evaluated the documented way (mesh.update(points, callback=region.reload)); a field created
+        # afterwards has to see the new radii
+        final = np.array(mesh.points)
+        mesh.update(points=final + np.array([0.0, 1.7]))
+        region = Rcls(mesh)
+        fem.FieldAxisymmetric(region, dim=2)
+        mesh.update(points=final, callback=region.reload)
+        rec.label("region-reloaded-after-radial-move")
+    else:
+        region = Rcls(mesh)
     fa = fem.FieldContainer([fem.FieldAxisymmetric(region, dim=2)])
     X = np.array(mesh.points)
     um = gmat.build(case["mat"]["name"], case["mat"]["params"])
@@ -252,6 +264,12 @@ def cond_check(kind, case, rec):
     K0 = np.asarray(s1.assemble.matrix(f1).toarray())
     rec.close("condensed: no forces in the undeformed body", float(np.abs(r0vec).max()) / float(np.abs(K0).max()), 1e-12)
     s1 = fem.SolidBodyNearlyIncompressible(um, f1, bulk=bulk)
+    if case["seed"] % 3 == 0:
+        # earlier in the session another mixed container was created with the documented non-default disconnect=False
+        # (continuous dual fields on a Q2 region): default containers created afterwards are not affected
+        mq = fem.Rectangle(n=3).add_midpoints_edges().add_midpoints_faces()
+        fem.FieldsMixed(fem.RegionBiQuadraticQuad(mq), n=3, disconnect=False)
+        rec.label("after-a-container-with-disconnect=False")
     f2 = fem.FieldsMixed(region, n=3, planestrain=ps, axisymmetric=axi)
     if axi and case["seed"] % 2 == 1:
         # a second analysis on a radially moved mesh of the same topology that takes over the dual (p, J) field objects
